@@ -30,6 +30,9 @@ pub struct YieldStore {
     yields: usize,
     /// capability reported by get_info: 0 what MemoryStore says (forced discoverable), 1 full, 2 non-discoverable only
     disc: u8,
+    /// the n-th update_credential call (counted over all authenticators) is refused with this status
+    fail_update: Option<(usize, u8)>,
+    updates_seen: usize,
 }
 
 #[async_trait::async_trait]
@@ -45,6 +48,17 @@ impl CredentialStore for YieldStore {
     }
     async fn update_credential(&mut self, cred: Passkey) -> Result<(), StatusCode> {
         YieldN(self.yields).await;
+        let n = self.updates_seen;
+        self.updates_seen += 1;
+        if let Some((k, code)) = self.fail_update {
+            if k == n {
+                return Err(StatusCode::from(code));
+            }
+        }
+        // row-update semantics: an update rewrites the record it finds and adds nothing (saving is what adds)
+        if !self.inner.contains_key(cred.credential_id.as_slice()) {
+            return Ok(());
+        }
         self.inner.update_credential(cred).await
     }
     async fn get_info(&self) -> StoreInfo {
@@ -138,6 +152,9 @@ pub struct Config {
     /// store capability (see YieldStore::disc); registrations ask for rk=false
     #[serde(default)]
     pub disc: u8,
+    /// the n-th counter update that reaches the store (whichever ceremony issues it) is refused with this status byte
+    #[serde(default)]
+    pub fail_update: Option<(u8, u8)>,
 }
 
 #[derive(Clone, Debug, PartialEq)]
@@ -259,7 +276,7 @@ fn initial_store(cfg: &Config) -> YieldStore {
         let pk = make_passkey(60 + k as u64, RP, &held_id(k), Some(b"c19-user-held"), Some(cfg.counter), None);
         m.insert(pk.credential_id.to_vec(), pk);
     }
-    YieldStore { inner: m, yields: cfg.store_yields, disc: cfg.disc }
+    YieldStore { inner: m, yields: cfg.store_yields, disc: cfg.disc, fail_update: cfg.fail_update.map(|(k, c)| (k as usize, c)), updates_seen: 0 }
 }
 
 /// run one schedule: at step i poll the `prefix[i]`-th runnable task (0 beyond the prefix)
@@ -441,12 +458,19 @@ pub fn judge(cfg: &Config, out: &RunOut) -> Result<Verdict, String> {
             }
         }
     }
+    let mut tolerated_failure = false;
     for (t, r) in out.results.iter().enumerate() {
         if let (Some(Done::Asserted { .. }), Some(Cer::AssertRefused { .. })) = (r, cfg.cers.get(t)) {
             // not a violation of this property; counted so that the generator's intent can be checked
             continue;
         }
         if let Some(Done::Failed(code)) = r {
+            // when one counter update is refused by the store, the assertion that issued it has to fail (once)
+            let is_assert = matches!(cfg.cers.get(t), Some(Cer::Assert { .. }));
+            if cfg.fail_update.is_some() && is_assert && !tolerated_failure {
+                tolerated_failure = true;
+                continue;
+            }
             return Err(format!("ceremony #{t} failed with status 0x{code:02X} although every request is satisfiable"));
         }
     }
@@ -528,12 +552,12 @@ fn check_generated(ctx: &mut Ctx, case: &(Config, Vec<u8>)) -> Result<(), String
 
 fn config(max_tasks: usize) -> impl Strategy<Value = Config> {
     let cer = prop_oneof![6 => (0u8..2, proptest::bool::weighted(0.8)).prop_map(|(cred, allow)| Cer::Assert { cred, allow }), 4 => (0u8..2).prop_map(|user| Cer::Register { user }), 1 => Just(Cer::RegisterExcluded), 2 => (0u8..2).prop_map(|cred| Cer::AssertRefused { cred })];
-    (prop_oneof![Just(Lock::ArcMutex), Just(Lock::ArcRwLock)], 0usize..3, proptest::collection::vec(0usize..4, 3), proptest::collection::vec(cer, 2..=max_tasks), prop_oneof![Just(5u32), Just(0), Just(1_000_000)]).prop_map(|(lock, store_yields, uv_yields, cers, counter)| Config { lock, store_yields, disc: (uv_yields.iter().sum::<usize>() % 3) as u8, uv_yields, cers, counter })
+    (prop_oneof![Just(Lock::ArcMutex), Just(Lock::ArcRwLock)], 0usize..3, proptest::collection::vec(0usize..4, 3), proptest::collection::vec(cer, 2..=max_tasks), prop_oneof![Just(5u32), Just(0), Just(1_000_000)]).prop_map(|(lock, store_yields, uv_yields, cers, counter)| Config { lock, store_yields, disc: (uv_yields.iter().sum::<usize>() % 3) as u8, fail_update: (uv_yields[0] == 3).then_some(((uv_yields[1] % 3) as u8, [0x28u8, 0x7F, 0x01][uv_yields[2] % 3])), uv_yields, cers, counter })
 }
 
 pub fn run(ctx: &mut Ctx) {
     let fs = ctx.first_shard();
-    ctx.rule = "2-3 authenticators share one Arc<Mutex<store>> / Arc<RwLock<store>> (inner store = MemoryStore behind a wrapper that suspends 0-2 times inside every call, so guards are held across suspensions); user validation suspends 0-3 times; ceremony sets {assert/assert same credential, assert/assert different credentials, assert/register, register/register same and different user, an assertion the authenticator refuses after the user prompt next to a successful one on the same credential, three-way mixes}. A schedule is the sequence of 'poll the k-th runnable ceremony' decisions; ALL schedules are enumerated for the fixed small configurations (DFS with prefix replay), larger ones get proptest-generated schedules. Non-trivial = schedule with at least one context switch between two unfinished ceremonies; distinct by (configuration, schedule).".into();
+    ctx.rule = "2-3 authenticators share one Arc<Mutex<store>> / Arc<RwLock<store>> (inner store = MemoryStore behind a wrapper that suspends 0-2 times inside every call, so guards are held across suspensions; its update only rewrites a record it finds, and it can refuse the n-th counter update with a status byte: the assertion that issued it must then fail); user validation suspends 0-3 times; ceremony sets {assert/assert same credential, assert/assert different credentials, assert/register, register/register same and different user, an assertion the authenticator refuses after the user prompt next to a successful one on the same credential, three-way mixes}. A schedule is the sequence of 'poll the k-th runnable ceremony' decisions; ALL schedules are enumerated for the fixed small configurations (DFS with prefix replay), larger ones get proptest-generated schedules. Non-trivial = schedule with at least one context switch between two unfinished ceremonies; distinct by (configuration, schedule).".into();
     ctx.assumptions = vec![
         "the harness owns every suspension point (user validation and store calls suspend only through harness doubles), so a ceremony is deterministic given the poll order".into(),
         "deadlock = no ceremony woken while ceremonies are unfinished".into(),
@@ -553,16 +577,29 @@ pub fn run(ctx: &mut Ctx) {
         vec![Cer::RegisterExcluded, Cer::Assert { cred: 0, allow: true }],
         vec![Cer::AssertRefused { cred: 0 }, Cer::Assert { cred: 0, allow: true }],
     ];
+    // a store that refuses the first / second counter update that reaches it, and registrations through both wrappers on a
+    // store whose update only rewrites existing records
+    for lock in [Lock::ArcMutex, Lock::ArcRwLock] {
+        for cers in [vec![Cer::Assert { cred: 0, allow: true }, Cer::Assert { cred: 0, allow: true }], vec![Cer::Assert { cred: 0, allow: true }, Cer::Assert { cred: 1, allow: true }], vec![Cer::Assert { cred: 0, allow: true }, Cer::Register { user: 0 }]] {
+            for k in 0..2u8 {
+                for sy in 0..=1usize {
+                    for uy in 0..=1usize {
+                        exhaustive_cfgs.push(Config { lock, store_yields: sy, uv_yields: vec![uy, 1 - uy, 0], cers: cers.clone(), counter: 5, disc: 0, fail_update: Some((k, 0x28)) });
+                    }
+                }
+            }
+        }
+    }
     let max_uy = ctx.tier.pick(2usize, 4usize);
     for lock in [Lock::ArcMutex, Lock::ArcRwLock] {
         for cers in &pairs {
             for sy in 0..=2usize {
                 for uy0 in 0..=max_uy {
                     for uy1 in 0..=max_uy {
-                        exhaustive_cfgs.push(Config { lock, store_yields: sy, uv_yields: vec![uy0, uy1, 0], cers: cers.clone(), counter: 5, disc: 0 });
+                        exhaustive_cfgs.push(Config { lock, store_yields: sy, uv_yields: vec![uy0, uy1, 0], cers: cers.clone(), counter: 5, disc: 0, fail_update: None });
                         if uy0 + uy1 <= 1 && cers.iter().any(|c| matches!(c, Cer::Register { .. } | Cer::RegisterExcluded)) {
                             for disc in [1u8, 2] {
-                                exhaustive_cfgs.push(Config { lock, store_yields: sy, uv_yields: vec![uy0, uy1, 0], cers: cers.clone(), counter: if disc == 1 { 0 } else { 5 }, disc });
+                                exhaustive_cfgs.push(Config { lock, store_yields: sy, uv_yields: vec![uy0, uy1, 0], cers: cers.clone(), counter: if disc == 1 { 0 } else { 5 }, disc, fail_update: None });
                             }
                         }
                     }
@@ -577,11 +614,11 @@ pub fn run(ctx: &mut Ctx) {
             vec![Cer::Register { user: 0 }, Cer::Register { user: 1 }, Cer::Register { user: 0 }],
         ] {
             for (sy, uvs) in [(0usize, vec![1usize, 0, 0]), (0, vec![1, 1, 1]), (1, vec![0, 0, 0])] {
-                exhaustive_cfgs.push(Config { lock, store_yields: sy, uv_yields: uvs, cers: cers.clone(), counter: 5, disc: 0 });
+                exhaustive_cfgs.push(Config { lock, store_yields: sy, uv_yields: uvs, cers: cers.clone(), counter: 5, disc: 0, fail_update: None });
             }
             if ctx.tier == crate::core::Tier::Thorough {
                 for (sy, uvs) in [(1usize, vec![1usize, 1, 0]), (1, vec![1, 1, 1]), (2, vec![0, 0, 0]), (0, vec![2, 2, 1])] {
-                    exhaustive_cfgs.push(Config { lock, store_yields: sy, uv_yields: uvs, cers: cers.clone(), counter: 5, disc: 0 });
+                    exhaustive_cfgs.push(Config { lock, store_yields: sy, uv_yields: uvs, cers: cers.clone(), counter: 5, disc: 0, fail_update: None });
                 }
             }
         }
